@@ -161,6 +161,29 @@ type routeInst struct {
 	hits    chan pipeHit
 	pcount  *base.LogProcessCounterSet
 	mseen   []*base.LogInputCounterSet
+	alloc   *base.LogAllocator
+	recSeq  int
+}
+
+// pooledRecord builds a record the way the parser does: the field values are substrings of one pooled backing buffer
+// (released and reused by later records), not immutable Go strings.
+func (ri *routeInst) pooledRecord(keys [][]byte) *base.LogRecord {
+	// the keys start at a different offset in every record, as header lengths differ between real records
+	ri.recSeq++
+	input := bytes.Repeat([]byte{'p'}, ri.recSeq%7)
+	off := len(input)
+	for _, k := range keys {
+		input = append(input, k...)
+	}
+	for len(input) < 64 || len(input)%64 != 0 {
+		input = append(input, 'x')
+	}
+	rec, str := ri.alloc.NewRecord(input)
+	for j, k := range keys {
+		rec.Fields[j] = str[off : off+len(k)]
+		off += len(k)
+	}
+	return rec
 }
 
 func (ri *routeInst) starter(_ logger.Logger, _ promreg.MetricCreator, input <-chan []*base.LogRecord, bufferID string, outputTag string, onStopped func()) {
@@ -187,11 +210,13 @@ func newRouteInst(n int, parts []tmplPart, initialIDs []string) *routeInst {
 	tmpl := renderTemplate(parts, func(i int) string { return names[i] })
 	ri.orch = obykeyset.NewOrchestrator(logger.WithField("verif", "route"), ri.schema, names, tmpl, mf, ri.starter, initialIDs)
 	ri.sink = ri.orch.NewSink("verif", 1)
+	ri.alloc = base.NewLogAllocator(ri.schema, 1)
 	ri.pcount = base.NewLogProcessCounter(mf.AddOrGetPrefix("m_", nil, nil), ri.schema, ri.schema.MustCreateFieldLocators(names), []string{"o"})
 	return ri
 }
 
 func (r *routeComp) Impl(c Case) []string {
+	defs.InputLogMinRecordBytesToPool = 0 // every record's fields live in a pooled buffer
 	out := make([]string, len(c.Ops))
 	var ri *routeInst
 	defer func() {
@@ -219,11 +244,7 @@ func (r *routeComp) Impl(c Case) []string {
 				ri = newRouteInst(n, parts, nil)
 				return "ok"
 			case "route rec":
-				fields := make(base.LogFields, len(o.Bytes))
-				for j, b := range o.Bytes {
-					fields[j] = string(b)
-				}
-				rec := ri.schema.NewTestRecord1(fields)
+				rec := ri.pooledRecord(o.Bytes)
 				ri.sink.Accept([]*base.LogRecord{rec})
 				ri.sink.Close()
 				select {
@@ -231,16 +252,15 @@ func (r *routeComp) Impl(c Case) []string {
 					if h.rec != rec {
 						return "foreign-record"
 					}
+					defer ri.alloc.Release(rec) // recycle the backing buffer: the next record overwrites it
 					return fmt.Sprintf("id=%s tag=%s pipe=%d", hx([]byte(h.p.id)), hx([]byte(h.p.tag)), h.p.idx)
 				case <-time.After(10 * time.Second):
 					return "lost"
 				}
 			case "route metric":
-				fields := make(base.LogFields, len(o.Bytes))
-				for j, b := range o.Bytes {
-					fields[j] = string(b)
-				}
-				ic := ri.pcount.SelectMetricKeySet(ri.schema.NewTestRecord1(fields))
+				mrec := ri.pooledRecord(o.Bytes)
+				ic := ri.pcount.SelectMetricKeySet(mrec)
+				ri.alloc.Release(mrec)
 				for j, s := range ri.mseen {
 					if s == ic {
 						return fmt.Sprintf("m=%d", j)
@@ -518,6 +538,9 @@ func (r *routeComp) Generate(rng *rand.Rand, n int, emit func(Case)) {
 		toks := []string{strconv.Itoa(arity), "L" + hx([]byte("t."))}
 		for i := 0; i < arity; i++ {
 			toks = append(toks, fmt.Sprintf("V%d", i), "L"+hx([]byte(".")))
+		}
+		if arity == 1 {
+			toks = []string{"1", "V0"} // a template that is one variable: the tag is the key value itself
 		}
 		ops := []Op{{Name: "route new", Strs: toks}}
 		for _, t := range tuples {
